@@ -603,7 +603,7 @@ func TestC02(t *testing.T) {
 		"every rejected case of: token sequences enumerated after canonical prefixes, token soups, mutated fixtures, fixtures in LF / CRLF / CR (file, index bounds, line and quote recomputed from the index alone), and valid generated documents x one injected fault of every C11 kind x newline convention x a cut into included files up to the tier's depth (same file set rendered with random styles): the diagnostic must lie in the file and span of an offending directive and Error() must be message + fault file:line + one includer:line per enclosing INCLUDE, innermost first; non-trivial = diagnostic not on line 1; distinct by project text",
 		"line / quote reference is defined for files with one newline convention; for mixed conventions only ranges are checked", "offending spans come from the document model (as in C11)")
 	defer vlib.CleanupScratch()
-	req := []string{"lex:bad-keyword-letter", "lex:stray-close-paren", "lex:illegal-byte", "lex:schema-syntax", "lex:bad-escape", "lex:unclosed-paren-at-eof", "rejected", "nl:LF", "nl:CRLF", "nl:CR", "fault-at-include-depth:0", "fault-at-include-depth:1", "fault-at-include-depth:2", "trace-checked", "include-project", "diagnostic-in-empty-file"}
+	req := []string{"lex:bad-keyword-letter", "lex:stray-close-paren", "lex:illegal-byte", "lex:schema-syntax", "lex:bad-escape", "lex:unclosed-paren-at-eof", "rejected", "nl:LF", "nl:CRLF", "nl:CR", "fault-at-include-depth:0", "fault-at-include-depth:1", "fault-at-include-depth:2", "trace-checked", "include-project"}
 	h.Require(req...)
 	// failing inputs of the native fuzz arm (thorough tier, driver-run) replay through this campaign
 	vlib.Enum(h, "native-fuzz", false, func(func(string) bool) {}, c02Bytes)
@@ -687,6 +687,9 @@ func TestC02(t *testing.T) {
 			return f
 		}
 		lines := strings.Split(vlib.RelTrace(res.Err.Full, dir), "\n")[strings.Count(res.Err.Msg, "\n")+1:]
+		if res.Err.File != "root.jst" && len(lines) == 0 {
+			return vlib.Failf("include-trace-missing", "the diagnostic %q is located in the included file %s but its text carries no include chain\n%s", res.Err.Msg, res.Err.File, show())
+		}
 		for i, l := range lines {
 			k := strings.LastIndex(l, ":")
 			if k < 0 {
